@@ -75,28 +75,28 @@ fn mk_iri_path(b: &[u8]) -> Option<&iri::Path> {
 interleave_body!(uri_interleave, uri::Path, mk_uri_path);
 interleave_body!(iri_interleave, iri::Path, mk_iri_path);
 
-// @h prop=C12,C20 tier=quick kind=check bound="uri::Path text <= 7 bytes, every interleaving of 9 next/next_back steps" encodes="uri::Path::new (real validate);PathImpl::{segments,segment_at,next_segment_from,previous_segment_from,first_segment_offset,is_empty};SegmentsImpl::{next,next_back}"
+// @h prop=C12,C20:thorough tier=quick kind=check bound="uri::Path text <= 7 bytes, every interleaving of 9 next/next_back steps" encodes="uri::Path::new (real validate);PathImpl::{segments,segment_at,next_segment_from,previous_segment_from,first_segment_offset,is_empty};SegmentsImpl::{next,next_back}"
 #[cfg_attr(kani, kani::proof)]
 #[cfg_attr(kani, kani::unwind(10))]
 pub fn c12_uri_interleave_n7() {
     uri_interleave::<7, 9>()
 }
 
-// @h prop=C12,C20 tier=thorough kind=check bound="uri::Path text <= 8 bytes, every interleaving of 10 steps" encodes="same as c12_uri_interleave_n7"
+// @h prop=C12,C20:thorough tier=thorough kind=check bound="uri::Path text <= 8 bytes, every interleaving of 10 steps" encodes="same as c12_uri_interleave_n7"
 #[cfg_attr(kani, kani::proof)]
 #[cfg_attr(kani, kani::unwind(11))]
 pub fn c12_uri_interleave_n8() {
     uri_interleave::<8, 10>()
 }
 
-// @h prop=C12,C20 tier=thorough kind=check timeout=2400 bound="uri::Path text <= 10 bytes, every interleaving of 12 steps" encodes="same as c12_uri_interleave_n8"
+// @h prop=C12,C20:thorough tier=thorough kind=check timeout=2400 bound="uri::Path text <= 10 bytes, every interleaving of 12 steps" encodes="same as c12_uri_interleave_n8"
 #[cfg_attr(kani, kani::proof)]
 #[cfg_attr(kani, kani::unwind(13))]
 pub fn c12_uri_interleave_n10() {
     uri_interleave::<10, 12>()
 }
 
-// @h prop=C12,C20 tier=quick kind=check bound="iri::Path text <= 7 bytes (UTF-8), every interleaving of 9 steps" encodes="PathImpl/SegmentsImpl for iri::Path"
+// @h prop=C12,C20:thorough tier=quick kind=check bound="iri::Path text <= 7 bytes (UTF-8), every interleaving of 9 steps" encodes="PathImpl/SegmentsImpl for iri::Path"
 #[cfg_attr(kani, kani::proof)]
 #[cfg_attr(kani, kani::unwind(10))]
 pub fn c12_iri_interleave_n7() {
@@ -194,21 +194,21 @@ macro_rules! queries_body {
 queries_body!(uri_queries, uri::Path, mk_uri_path);
 queries_body!(iri_queries, iri::Path, mk_iri_path);
 
-// @h prop=C12,C20 tier=quick kind=check bound="uri::Path text <= 8 bytes" encodes="PathImpl::{is_empty,is_absolute,first,last,file_name,directory,parent,parent_or_empty,segments};uri::Path::segment_count"
+// @h prop=C12,C20:thorough tier=quick kind=check bound="uri::Path text <= 8 bytes" encodes="PathImpl::{is_empty,is_absolute,first,last,file_name,directory,parent,parent_or_empty,segments};uri::Path::segment_count"
 #[cfg_attr(kani, kani::proof)]
 #[cfg_attr(kani, kani::unwind(11))]
 pub fn c12_uri_queries_n8() {
     uri_queries::<8>()
 }
 
-// @h prop=C12,C20 tier=thorough kind=check timeout=2400 bound="uri::Path text <= 12 bytes" encodes="same as c12_uri_queries_n8"
+// @h prop=C12,C20:thorough tier=thorough kind=check timeout=2400 bound="uri::Path text <= 12 bytes" encodes="same as c12_uri_queries_n8"
 #[cfg_attr(kani, kani::proof)]
 #[cfg_attr(kani, kani::unwind(15))]
 pub fn c12_uri_queries_n12() {
     uri_queries::<12>()
 }
 
-// @h prop=C12,C20 tier=quick kind=check bound="iri::Path text <= 7 bytes (UTF-8)" encodes="same queries for iri::Path"
+// @h prop=C12,C20:thorough tier=quick kind=check bound="iri::Path text <= 7 bytes (UTF-8)" encodes="same queries for iri::Path"
 #[cfg_attr(kani, kani::proof)]
 #[cfg_attr(kani, kani::unwind(10))]
 pub fn c12_iri_queries_n7() {
